@@ -262,6 +262,23 @@ def length_guards(job):
                                                     dn=n, order=order))
                     except ValueError:
                         job.confirm('Derivative with too few steps raises ValueError', True)
+    # multicomplex with n above 2 reached through the public attributes after construction
+    for how in ('n', 'method'):
+        for n_bad in (3, 4, 6):
+            try:
+                with cm.quiet():
+                    if how == 'n':
+                        d = nd.Derivative(np.exp, method='multicomplex', n=2)
+                        d(0.5)
+                        d.n = n_bad
+                    else:
+                        d = nd.Derivative(np.exp, method='central', n=n_bad)
+                        d(0.5)
+                        d.method = 'multicomplex'
+                    v = d(0.5)
+                job.violation('mc-n', dict(key='C11:multicomplex-n>2-after-setter', kind='len', m=n_bad, n=2, method='multicomplex', how=how, returned=repr(v)[:60]))
+            except ValueError:
+                job.confirm('multicomplex n>2 set through %s raises ValueError' % how, True)
     for cls in ('Gradient', 'Jacobian', 'Hessdiag'):
         for method in ('central', 'forward', 'complex'):
             for order in (2, 4):
